@@ -20,7 +20,12 @@ type Relay struct {
 	next     int
 	Accepted atomic.Int64
 	stalled  atomic.Bool
+	frozen   atomic.Bool
 }
+
+// Freeze(true) stops the relay reading from either side (the connections stay open and their TCP buffers fill
+// up: a path that is congested to a standstill); Freeze(false) lets the traffic flow again.
+func (r *Relay) Freeze(on bool) { r.frozen.Store(on) }
 
 // Stall makes the relay a black hole: the connections stay open, nothing is carried any more in either direction
 // and the end of one side is not passed on to the other (a network that silently drops packets).
@@ -29,6 +34,9 @@ func (r *Relay) Stall() { r.stalled.Store(true) }
 func (r *Relay) pipe(dst, src net.Conn, done func()) {
 	buf := make([]byte, 32*1024)
 	for {
+		for r.frozen.Load() {
+			time.Sleep(5 * time.Millisecond)
+		}
 		n, err := src.Read(buf)
 		if r.stalled.Load() {
 			if err != nil {
